@@ -315,7 +315,7 @@ def int_stream(rng, k, mx, nmsgs):
         out.append(ln.to_bytes(k, "big") + bytes(rng.randrange(256) for _ in range(ln)))
     r = rng.random()
     if r < 0.3:      # incomplete tail
-        ln = rng.randrange(0, mx + 1)
+        ln = min(rng.randrange(0, mx + 1), 256 ** k - 1)
         full = ln.to_bytes(k, "big") + bytes(rng.randrange(256) for _ in range(ln))
         out.append(full[:rng.randrange(0, len(full) + 1)])
     elif r < 0.45:   # huge prefix
